@@ -312,7 +312,11 @@ func (w *world) main() {
 		if sc.LongTimeout {
 			rt = time.Hour
 		}
-		conf := modbus.ClientConfig{ReadTimeout: rt, WriteTimeout: time.Hour,
+		wt := time.Hour
+		if sc.DeviceDelayMs > 0 {
+			wt = 5 * time.Millisecond // with a slow device also a short write timeout: whatever is bounded by it must not start while queueing
+		}
+		conf := modbus.ClientConfig{ReadTimeout: rt, WriteTimeout: wt,
 			DialContextFunc: func(ctx context.Context, address string) (net.Conn, error) {
 				vsched.PointObj("dial", w)
 				c := w.newConn(false)
